@@ -139,3 +139,120 @@ func RandomHistory(r RNG, base []uint32, runs [][2]int, n int) []Op {
 	}
 	return ops
 }
+
+// ChanOp is one channel-plan call: AddChannel ('A'), DisableUplinkChannelIndex ('D') or
+// EnableUplinkChannelIndex ('E').
+type ChanOp struct {
+	Kind         byte
+	Freq         uint32
+	MinDR, MaxDR int
+	Index        int
+}
+
+func AddOp(f uint32, lo, hi int) ChanOp { return ChanOp{Kind: 'A', Freq: f, MinDR: lo, MaxDR: hi} }
+func DisableOp(i int) ChanOp            { return ChanOp{Kind: 'D', Index: i} }
+func EnableOp(i int) ChanOp             { return ChanOp{Kind: 'E', Index: i} }
+
+// ChanOps prints a history as a Gallina `list chan_op` (Band/Lookup.v).
+func ChanOps(ops []ChanOp) string {
+	items := make([]string, len(ops))
+	for i, o := range ops {
+		switch o.Kind {
+		case 'A':
+			items[i] = fmt.Sprintf("OpAdd %d%%Z %s%%Z %s%%Z", o.Freq, Z(int64(o.MinDR)), Z(int64(o.MaxDR)))
+		case 'D':
+			items[i] = fmt.Sprintf("OpDisable %s%%Z", Z(int64(o.Index)))
+		default:
+			items[i] = fmt.Sprintf("OpEnable %s%%Z", Z(int64(o.Index)))
+		}
+	}
+	return "[" + strings.Join(items, "; ") + "]"
+}
+
+// ChanOpsKey is the compact form used in case keys: "add868300000/6/6,dis0,en5".
+func ChanOpsKey(ops []ChanOp) string {
+	items := make([]string, len(ops))
+	for i, o := range ops {
+		switch o.Kind {
+		case 'A':
+			items[i] = fmt.Sprintf("add%d/%d/%d", o.Freq, o.MinDR, o.MaxDR)
+		case 'D':
+			items[i] = fmt.Sprintf("dis%d", o.Index)
+		default:
+			items[i] = fmt.Sprintf("en%d", o.Index)
+		}
+	}
+	return strings.Join(items, ",")
+}
+
+// ChanOpsReplay is the replay form of a history.
+func ChanOpsReplay(ops []ChanOp) []string {
+	items := make([]string, len(ops))
+	for i, o := range ops {
+		switch o.Kind {
+		case 'A':
+			items[i] = fmt.Sprintf("AddChannel(%d, %d, %d)", o.Freq, o.MinDR, o.MaxDR)
+		case 'D':
+			items[i] = fmt.Sprintf("DisableUplinkChannelIndex(%d)", o.Index)
+		default:
+			items[i] = fmt.Sprintf("EnableUplinkChannelIndex(%d)", o.Index)
+		}
+	}
+	return items
+}
+
+// ApplyChanOps runs the history on b; per call: did it return an error.
+func ApplyChanOps(b band.Band, ops []ChanOp) []bool {
+	var errs []bool
+	for _, o := range ops {
+		var err error
+		switch o.Kind {
+		case 'A':
+			err = b.AddChannel(o.Freq, o.MinDR, o.MaxDR)
+		case 'D':
+			err = b.DisableUplinkChannelIndex(o.Index)
+		default:
+			err = b.EnableUplinkChannelIndex(o.Index)
+		}
+		errs = append(errs, err != nil)
+	}
+	return errs
+}
+
+// Bools prints a Gallina `list bool`.
+func Bools(bs []bool) string {
+	items := make([]string, len(bs))
+	for i, b := range bs {
+		items[i] = Bool(b)
+	}
+	return "[" + strings.Join(items, "; ") + "]"
+}
+
+// RandomChanOps draws n calls for a band that currently has nch uplink channels with the
+// frequencies base: AddChannel (repeated or new frequency; refused by bands without extra
+// channels), Disable / Enable of a valid index, now and then of the index one past the end.
+func RandomChanOps(r RNG, base []uint32, runs [][2]int, extra bool, nch, n int) []ChanOp {
+	freqs := append([]uint32{}, base...)
+	var ops []ChanOp
+	for k := 0; k < n; k++ {
+		w := r.Intn(10)
+		switch {
+		case extra && w < 4, !extra && w == 0:
+			a := RandomHistory(r, freqs, runs, 1)[0]
+			ops = append(ops, AddOp(a.Freq, a.MinDR, a.MaxDR))
+			if extra {
+				freqs = append(freqs, a.Freq)
+				nch++
+			}
+		case w < 8:
+			i := r.Intn(nch + 1)
+			if r.Intn(8) != 0 && i == nch {
+				i = 0
+			}
+			ops = append(ops, DisableOp(i))
+		default:
+			ops = append(ops, EnableOp(r.Intn(nch)))
+		}
+	}
+	return ops
+}
